@@ -35,11 +35,23 @@ type ins struct {
 // Build writes the overlay into outDir and returns the path of overlay.json.
 // extra maps repo-relative target paths to source files that are added as is.
 func Build(repo, outDir string, extra map[string]string, inject bool) (*Result, error) {
+	return BuildShadow(repo, "", outDir, extra, inject)
+}
+
+// BuildShadow is Build with the sources read from `shadow` (a scratch copy of
+// the repository carrying a change under test) while the overlay is keyed by
+// the paths of `repo`, which stays untouched: files that are not instrumented
+// but differ in the shadow (or exist only there) are mapped as they are.
+func BuildShadow(repo, shadow, outDir string, extra map[string]string, inject bool) (*Result, error) {
 	res := &Result{}
 	replace := map[string]string{}
+	srcRoot := repo
+	if shadow != "" {
+		srcRoot = shadow
+	}
 	if inject {
 		for _, d := range Dirs {
-			entries, err := os.ReadDir(filepath.Join(repo, d))
+			entries, err := os.ReadDir(filepath.Join(srcRoot, d))
 			if err != nil {
 				continue
 			}
@@ -48,8 +60,8 @@ func Build(repo, outDir string, extra map[string]string, inject bool) (*Result, 
 				if e.IsDir() || !strings.HasSuffix(n, ".go") || strings.HasSuffix(n, "_test.go") {
 					continue
 				}
-				src := filepath.Join(repo, d, n)
-				out, sites, err := instrumentFile(src)
+				src := filepath.Join(srcRoot, d, n)
+				out, sites, err := instrumentFileAs(src, filepath.Join(repo, d, n))
 				if err != nil {
 					res.Uninstrumented = append(res.Uninstrumented, filepath.Join(d, n)+": "+err.Error())
 					continue
@@ -64,11 +76,38 @@ func Build(repo, outDir string, extra map[string]string, inject bool) (*Result, 
 				if err := os.WriteFile(dst, out, 0o644); err != nil {
 					return nil, err
 				}
-				replace[src] = dst
+				replace[filepath.Join(repo, d, n)] = dst
 				res.Sites = append(res.Sites, sites...)
 				res.Files++
 			}
 		}
+	}
+	if shadow != "" {
+		filepath.Walk(shadow, func(path string, info os.FileInfo, err error) error {
+			if err != nil {
+				return nil
+			}
+			rel, _ := filepath.Rel(shadow, path)
+			if info.IsDir() {
+				if rel == ".git" || rel == "_mutation" {
+					return filepath.SkipDir
+				}
+				return nil
+			}
+			if !strings.HasSuffix(rel, ".go") || strings.HasSuffix(rel, "_test.go") {
+				return nil
+			}
+			key := filepath.Join(repo, rel)
+			if _, done := replace[key]; done {
+				return nil
+			}
+			a, _ := os.ReadFile(path)
+			b, err2 := os.ReadFile(key)
+			if err2 != nil || string(a) != string(b) {
+				replace[key] = path
+			}
+			return nil
+		})
 	}
 	for target, src := range extra {
 		replace[filepath.Join(repo, target)] = src
@@ -123,6 +162,12 @@ func lockClass(pkg string, fd *ast.FuncDecl, expr string) string {
 }
 
 func instrumentFile(path string) ([]byte, []string, error) {
+	return instrumentFileAs(path, path)
+}
+
+// instrumentFileAs instruments the file at path; positions are reported as name.
+func instrumentFileAs(path, name string) ([]byte, []string, error) {
+	_ = name
 	src, err := os.ReadFile(path)
 	if err != nil {
 		return nil, nil, err
